@@ -57,6 +57,7 @@ type Config struct {
 	SkipSeed            uint64   `json:"skip_seed"` // deterministic skiplist heights
 	PrefillAllKeys      bool     `json:"prefill_all_keys,omitempty"`
 	PrefillVlog         bool     `json:"prefill_vlog,omitempty"`
+	PrefillClustered    bool     `json:"prefill_clustered,omitempty"`
 	Prefill             int      `json:"prefill"` // percent of MemTableSize written (through the model) before scheduling starts
 }
 
